@@ -4,7 +4,7 @@ SPEC = {
     "pkg": "props/c12", "level": "exploration",
     "rule": ("InfluxQL text is generated from the grammar (all binary/unary operators and nestings, redundant parentheses, identifiers needing quotes, "
              "strings with quotes/backslashes/newlines, int64 limits, floats, durations, regexes with slashes, calls of any arity, bound parameters) and parsed by "
-             "the front-end (yacc) parser or by ParseExpr; what the parser accepts is printed and read back the way the store does it (ParseExpr for conditions, "
+             "the front-end (yacc) parser or by ParseExpr; what the parser accepts is printed and read back the way the store does it (ParseExpr for conditions - both as parsed and as left by query.Compile -, "
              "hybridqp.ParseFields for field lists, ParseSource/ParseStatement for sources, the front end itself for stored statements) and must give the same tree "
              "(parentheses nodes transparent, literal types exact). ProcessorOptions derived from generated statements, RemoteQuery, query schema + operator trees and "
              "result chunks (all column types, null maps, tags, dims) go through Marshal/Unmarshal and must come back equal on every field the wire message carries. "
@@ -17,14 +17,15 @@ SPEC = {
         "structural equality ignores unexported AST fields (depth caches) and treats nil and empty slices/maps alike",
     ],
     "campaigns": [
-        {"name": "expr_rd", "run": "^TestExprRD$", "quick": B(25000, 2), "thorough": B(600000, 3, 3000)},
-        {"name": "cond_ship", "run": "^TestCondShip$", "quick": B(25000, 3), "thorough": B(600000, 4, 3000)},
-        {"name": "fields_ship", "run": "^TestFieldsShip$", "quick": B(25000, 2), "thorough": B(600000, 3, 3000)},
-        {"name": "stmt_rt", "run": "^TestStmtRoundTrip$", "quick": B(20000, 2), "thorough": B(400000, 3, 3000)},
-        {"name": "opt_codec", "run": "^TestOptCodec$", "quick": B(10000, 2), "thorough": B(250000, 3, 3000)},
-        {"name": "remote_query", "run": "^TestRemoteQuery$", "quick": B(8000, 1), "thorough": B(200000, 2, 3000)},
-        {"name": "plan_codec", "run": "^TestPlanCodec$", "quick": B(10000, 1), "thorough": B(300000, 2, 3000)},
-        {"name": "chunk_codec", "run": "^TestChunkCodec$", "quick": B(5000, 2), "thorough": B(120000, 4, 3000)},
+        {"name": "expr_rd", "run": "^TestExprRD$", "quick": B(60000, 2), "thorough": B(2500000, 2, 3000)},
+        {"name": "cond_ship", "run": "^TestCondShip$", "quick": B(50000, 2), "thorough": B(2000000, 3, 3000)},
+        {"name": "planned_cond", "run": "^TestPlannedCond$", "quick": B(40000, 2), "thorough": B(1500000, 2, 3000)},
+        {"name": "fields_ship", "run": "^TestFieldsShip$", "quick": B(60000, 2), "thorough": B(2500000, 2, 3000)},
+        {"name": "stmt_rt", "run": "^TestStmtRoundTrip$", "quick": B(30000, 2), "thorough": B(800000, 2, 3000)},
+        {"name": "opt_codec", "run": "^TestOptCodec$", "quick": B(20000, 2), "thorough": B(500000, 2, 3000)},
+        {"name": "remote_query", "run": "^TestRemoteQuery$", "quick": B(15000, 1), "thorough": B(400000, 1, 3000)},
+        {"name": "plan_codec", "run": "^TestPlanCodec$", "quick": B(30000, 1), "thorough": B(800000, 1, 3000)},
+        {"name": "chunk_codec", "run": "^TestChunkCodec$", "quick": B(10000, 2), "thorough": B(500000, 1, 3000)},
     ],
 }
 
